@@ -628,6 +628,7 @@ pub fn exec(line: &str, rec: &mut Recorder) {
 // generators
 // ------------------------------------------------------------------------------------------
 
+#[allow(dead_code)]
 fn nm(labels: &[&[u8]], apex: &Name) -> Name {
     // labels given most-significant first, relative to apex
     let mut n = apex.clone();
